@@ -8,10 +8,12 @@ pointer-to-int); the hasher is constructed by DefaultHasher::new (fixed keys); t
 (b) the shard tag of generated event ids is the shard's own id (ShardContext::next_event_id passes self.id).
 (c) fan-out loops (query dispatch, both sequence dispatch loops, FLUSH) iterate ShardManager::all_shards() without adapters; every iteration sends to that shard and registers the pending reply;
 the collection loop consumes every pending reply or returns an error; all_shards returns the whole shards field.
+(d) slot = id: ShardManager::new builds `shards` by pushing, inside the loop over 0..num_shards and in loop order, the shard spawned with that iteration's index as its id, so that
+`hash % len` selects the same shard id in every process lifetime (no completion-order collection).
 Not decided: stability of DefaultHasher's algorithm across Rust releases (documented unspecified; assumption).
 """
-FLOOR = 7
-REQUIRED = ["C12.a", "C12.b", "C12.c1", "C12.c2", "C12.c3", "C12.c4", "C12.c5"]
+FLOOR = 8
+REQUIRED = ["C12.a", "C12.b", "C12.c1", "C12.c2", "C12.c3", "C12.c4", "C12.c5", "C12.d"]
 ASSUMPTIONS = ["std::collections::hash_map::DefaultHasher::new() is SipHash-1-3 with fixed zero keys in every build of the same toolchain"]
 
 NONDET = re.compile(r"(RandomState::new|RandomState::default|ahash::RandomState|ahash::AHasher::default|rand::|fastrand::|getrandom|SystemTime::now|Instant::now|thread::current|ThreadId|thread_rng|process::id|Uuid::new)")
@@ -210,3 +212,37 @@ def run(ctx):
                     bad.append(("shard-iterator-adapter:%s" % nm.split("::")[-1], "%s narrows the shard list with %s" % (nm, c_.nname), None))
         return bad
     ctx.run("C12.c5", "K9 LOOP", "ShardManager::{flush_all, wait_for_flush_completion, shutdown_all}", "shard-wide operations reach every shard", c5)
+
+
+    def d_(inst):
+        b = F.fn("ShardManager::new")
+        spawn = one(b, r"shard::types::Shard::spawn$")
+        pushes = [p for p in b.find_calls(r"Vec::push$") if "Shard" in b.local_ty((p.args[1].get("m") or p.args[1].get("c") or [0])[0])]
+        if not pushes:
+            raise AnchorMissing("shards.push(shard)")
+        nxs = [c for c in b.find_calls(r"Iterator>::next$") if b.can_reach(c.bb, spawn.bb) and b.can_reach(spawn.bb, c.bb)]
+        inst.sites = [sp(b, spawn.bb)] + [sp(b, p.bb) for p in pushes]
+        bad = []
+        if not nxs:
+            return [("spawn-outside-loop", "shards are not spawned inside the id loop", None)]
+        # the loop iterates a Range and the id handed to spawn is that iteration's value
+        rng = [c for c in nxs if any(l[0] == "agg" and "Range" in l[1] for l in b.origins(c.args[0], transparent=NEXT_TRANSPARENT))]
+        if not rng:
+            return [("id-loop-not-range", "Shard::spawn is not inside a loop over a 0..num_shards range", None)]
+        nx = rng[0]
+        if nx.dest[0] not in wide_all(b, spawn.args[0], depth=12):
+            bad.append(("spawn-id-origin", "Shard::spawn is not given the loop index as shard id", None))
+        if not is_awaited(b, spawn):
+            bad.append(("spawn-not-awaited", "Shard::spawn is not awaited inside the id loop (shards would be collected in completion order)", None))
+        for p in pushes:
+            # same iteration: the push is inside the loop body and receives that spawn's result
+            in_loop = b.can_reach(nx.bb, p.bb) and b.can_reach(p.bb, nx.bb)
+            aw = b.await_of(spawn)
+            src = wide_all(b, p.args[1], depth=14)
+            from_spawn = (aw is not None and aw[0].dest[0] in src) or spawn.dest[0] in src
+            if not in_loop or not from_spawn:
+                bad.append(("push-order", "the shard vector is not filled in id order (push outside the id loop or of another value): slot i would no longer be shard i, so a context's shard changes between process lifetimes", None))
+        if b.find_calls(r"JoinSet|join_all|FuturesUnordered|join_next"):
+            bad.append(("completion-order", "shards are collected in completion order", None))
+        return bad
+    ctx.run("C12.d", "K7 PROV + K9", "ShardManager::new", "slot i of the shard vector is shard id i", d_)
